@@ -399,7 +399,7 @@ def orc_c08(ctx, op, req, impl, model, spec):
 
 
 def orc_c09(ctx, op, req, impl, model, spec):
-    if op != "pair":
+    if op not in ("pair", "extpair", "lipair"):
         return None
     a, b = impl.split(" || ")
     if err_class(a) != err_class(b):
@@ -461,6 +461,10 @@ def orc_c12(ctx, op, req, impl, model, spec):
         return None
     if op == "subeq":
         return orc_subeq(ctx, op, req, impl, model, spec)
+    if op == "route":
+        if impl != "ok eq=1 cmp=eq he=1 se=1":
+            return "the same value reached along a second route through the safe API (route %s) differs: %s" % (req.split(" ")[2], impl)
+        return None
     if op == "eqstr":
         # `ok <li == s> <li.language == s> str=<to_string> lang=<language text>`
         f = impl.split(" ")
@@ -795,10 +799,10 @@ PROPS = {
                 design_ref="4/C07"),
     "C08": Prop("C08", S(["triples"], "min,limin,liminmax,locmin"), {"min", "limin", "liminmax", "locmin"}, proj_full, orc_c08,
                 design_ref="4/C08"),
-    "C09": Prop("C09", [("pairs", None)], {"pair"}, proj_pair, orc_c09, design_ref="4/C09"),
+    "C09": Prop("C09", [("pairs", None)], {"pair", "extpair", "lipair"}, proj_pair, orc_c09, design_ref="4/C09"),
     "C10": Prop("C10", [("hist", None)], {"hist"}, proj_c10, orc_c10, design_ref="4/C10"),
     "C11": Prop("C11", [("match", None)], {"match", "locmatch", "langmatch", "matchx", "locmatchx"}, proj_full, orc_c11, design_ref="4/C11"),
-    "C12": Prop("C12", [("rel", None), ("glue_misc", None)], {"rel", "eqstr", "subeq"}, proj_full, orc_c12, design_ref="4/C12"),
+    "C12": Prop("C12", [("rel", None), ("glue_misc", None)], {"rel", "eqstr", "subeq", "route"}, proj_full, orc_c12, design_ref="4/C12"),
     "C13": Prop("C13", S(["tokens"], "conv") + S(["wf", "near", "raw"], "conv,convx"), {"conv", "convx"}, proj_c13, orc_c13,
                 design_ref="4/C13"),
     "C14": Prop("C14", [("layoutnames", None)] + S(["triples"], "dir"), {"dir", "locdir"}, proj_full, orc_c14, design_ref="4/C14",
